@@ -35,7 +35,7 @@ func cmdManifest() int {
 		}
 		served = append(served, id)
 		var ruleIDs []string
-		for _, r := range p.Rules {
+		for _, r := range rules.ResolvedRules(p) {
 			ruleIDs = append(ruleIDs, r.ID)
 		}
 		text := "Static analysis decides structural NECESSARY conditions of " + id + " on every path of the current source (not the behaviour itself): " + p.Explanation +
